@@ -8,6 +8,7 @@ from __future__ import annotations
 
 import os
 import shutil
+import zlib
 
 from gverif.props import x05_child as child
 from gverif.props import x05_world as world
@@ -76,9 +77,13 @@ def _check(case: dict, w: dict, res: dict) -> None:
     if "crash" in real:
         res["die"] = f"real child crashed on {ident}: {real['crash']}"
         return
-    # ---- CPython oracle: longest importable prefix = first success of fresh attempts n, n-1, ..., 1
+    # ---- CPython oracle.  deep: the longest importable prefix is the first success of fresh attempts n, n-1, ..., 1
+    # (one pristine interpreter state each).  Otherwise two fresh children: one attempt at the whole path - CPython
+    # imports parents first, so the prefixes it leaves in sys.modules are the importable ones and every longer prefix
+    # fails at the same step with the same exception - then import_module(longest importable prefix).
     attempts = []
     k_o = 0
+    deep = zlib.crc32(repr(res["key"]).encode()) % 8 == 0
     for m in range(n, 0, -1):
         o = child.forked(child.run_oracle, w, m)
         if "crash" in o:
@@ -87,6 +92,16 @@ def _check(case: dict, w: dict, res: dict) -> None:
         attempts.append(o)
         if o["import"]["ok"]:
             k_o = m
+            break
+        if not deep:
+            k_o = max([v["i"] for v in o["mods"] if v["t"] in ("M", "X")], default=0)
+            attempts += [dict(o, m=x) for x in range(n - 1, k_o, -1)]
+            if k_o:
+                o = child.forked(child.run_oracle, w, k_o)
+                if "crash" in o or not o["import"]["ok"]:
+                    res["die"] = f"oracle: prefix {k_o} is in sys.modules after a failed attempt but does not import alone on {ident}: {o}"
+                    return
+                attempts.append(o)
             break
     first, last = attempts[0], attempts[-1]
     failed = [o for o in attempts if not o["import"]["ok"]]
